@@ -95,3 +95,40 @@ Proof.
 Qed.
 
 End Overlap.
+
+(* tversky_loss (repaired: it no longer forwards gamma to tversky_index) *)
+Section TverskyLoss.
+Variable K : fld.
+Hypothesis Kf : is_field K.
+Add Field KF2 : Kf.
+
+Lemma fpow_zero n : (0 < n)%nat -> fpow (K:=K) 0 n = 0.
+Proof. destruct n; [lia|]. intros _. cbn [fpow]. ring. Qed.
+
+Lemma fpow_one (x : K) : fpow x 1 = x.
+Proof. cbn [fpow]. ring. Qed.
+
+(* the documented clause, through tversky_loss itself: alpha = beta = 1/2 on binary inputs is the
+   Dice loss with 2 epsilon (to the power gamma) *)
+Lemma tversky_loss_half_is_dice_loss (Kc : char0 K) gamma (eps : K) (p t : list K) w :
+  binary p -> binary t -> length p = length t -> wlen_ok K p w ->
+  dotw p p w + dotw t t w + (1 + 1) * eps <> 0 ->
+  tversky_loss gamma (1 / (1 + 1)) (1 / (1 + 1)) eps p t w = fpow (dice_loss ((1 + 1) * eps) p t w) (Nat.max gamma 1) /\
+  ((gamma <= 1)%nat -> tversky_loss gamma (1 / (1 + 1)) (1 / (1 + 1)) eps p t w = dice_loss ((1 + 1) * eps) p t w).
+Proof.
+  intros Hp Ht H Hw Hd. unfold tversky_loss, dice_loss.
+  rewrite (tversky_half_is_dice K Kf Kc eps p t w Hp Ht H Hw Hd). split; [reflexivity|].
+  intro Hg. replace (Nat.max gamma 1) with 1%nat by lia. apply fpow_one.
+Qed.
+
+Lemma tversky_loss_identical_binary gamma (alpha beta eps : K) (x : list K) w :
+  binary x -> wlen_ok K x w -> dotw x x w + eps <> 0 -> tversky_loss gamma alpha beta eps x x w = 0.
+Proof.
+  intros Hx Hw Hd. unfold tversky_loss. rewrite (tversky_identical_binary K Kf alpha beta eps x w Hx Hw Hd).
+  replace (1 - 1 : K) with (0 : K) by ring. apply fpow_zero. lia.
+Qed.
+
+Lemma tversky_loss_swap gamma (alpha beta eps : K) (p t : list K) w :
+  tversky_loss gamma alpha beta eps p t w = tversky_loss gamma beta alpha eps t p w.
+Proof. unfold tversky_loss. rewrite (tversky_swap K Kf alpha beta eps p t w). reflexivity. Qed.
+End TverskyLoss.
